@@ -35,9 +35,20 @@ var checks = map[string]checkSpec{
 		Rule: "2-8 goroutines share one Conn (ReadOffset with injective answers, ReadPartitions of distinct topics, ReadOffsets, Brokers, SetDeadline racing with I/O) or one Transport/Client (ListOffsets, Metadata, OffsetFetch, Fetch of pairwise distinct targets) with contexts cancelled or expiring mid-flight, slow / silent brokers, cuts and error codes; every call must return its own (precomputed) answer or an error, and correlation ids must be unique per connection.",
 	},
 	"C11": {
-		Scenarios: []scnSpec{{Name: "connerr", Share: 1, Count: 4356}},
+		Scenarios: []scnSpec{{Name: "connerr", Share: 1, CountKey: "connerr"}},
 		Quick:     30 * time.Second, Thorough: 10 * time.Minute, Level: "fault_enumeration",
-		Rule: "Exhaustive enumeration (thorough tier; the quick tier walks a seed-dependent subset of the same bijection) of 11 Conn operations x 3 negotiated-version configurations (produce v2/v3/v7, fetch v2/v5/v10, metadata v1/v6) x 11 faults (8 Kafka error codes placed in the operation's error field, response cut mid-way, garbage size prefix, wrong correlation id) x 11 follow-up operations = 4356 cases; after a broker error code the follow-up must behave as on a fresh connection, after a framing/transport error it must fail, and no operation may return a value other than the model's.",
+		Rule: "Exhaustive enumeration (thorough tier; the quick tier walks a seed-dependent subset of the same bijection) of 11 Conn operations x 3 negotiated-version configurations (produce v2/v3/v7, fetch v2/v5/v10, metadata v1/v6) x 11 faults (8 Kafka error codes placed in the operation's error field, response cut mid-way, garbage size prefix, wrong correlation id) x 11 follow-up operations = 3993 cases; after a broker error code the follow-up must behave as on a fresh connection, after a framing/transport error it must fail, and no operation may return a value other than the model's.",
+	},
+	"C17": {
+		Scenarios: []scnSpec{{Name: "cutresp", Share: 1, CountKey: "cutresp"}},
+		Quick:     45 * time.Second, Thorough: 15 * time.Minute, Level: "fault_enumeration",
+		Rule: "For every response kind of the corpus (Conn: ApiVersions, Metadata v1/v6, ListOffsets, Produce v2/v3/v7, CreateTopics, DeleteTopics, Fetch v2/v5/v10 with magic 0/1/2 and gzip/snappy/zstd payloads; Transport: Fetch, Metadata, ListOffsets, Produce, OffsetFetch, OffsetCommit, FindCoordinator, JoinGroup, SyncGroup, Heartbeat, LeaveGroup, CreateTopics, DeleteTopics, InitProducerID, ApiVersions, DescribeGroups, ListGroups at the low and high ends of their negotiable versions incl. flexible ones) the response is delivered up to byte k and the connection then ends with EOF or RST, for every k in [0, 2048] (positions beyond the response length deliver it whole: the complete-value check); the run index walks a bijection of that space, so the thorough tier covers every (kind, k, mode) once.",
+	},
+	"C20": {
+		Scenarios: []scnSpec{{Name: "lenfuzz", Share: 1, CountKey: "lenfuzz", MemLimitKB: 8 << 20}},
+		Quick:     25 * time.Second, Thorough: 10 * time.Minute, Level: "fault_enumeration",
+		Rule: "For every Transport/Client response kind of the corpus, every length or count field of the encoded response (frame size, fixed and compact string/bytes/array lengths, tagged-field counts and sizes, record-set size, batch length / message size and, left with their wrong checksum, the lengths inside record batches) is overwritten with each value of {-2^31, -2, -1, 0, 1, 2^16, 2^31-1, (varints:) 2^32, 2^63-1, true-1, true+1, rest-of-frame+1}; the call must return (no panic, no process death), within its deadline, and allocate no more than 64 x bytes received + 1 MiB (+ a fixed decompressor allowance).",
+		Assume: []string{"allocation is measured with runtime.MemStats.TotalAlloc around the call in a single-goroutine-at-a-time simulation"},
 	},
 	"C07": {
 		Scenarios: []scnSpec{{Name: "writer", Params: "focus=order", Share: 1}},
